@@ -399,6 +399,28 @@ def untouched_case(protocol, loader="pickle"):
     return err, ok
 
 
+def large_value_case(protocol, loader="pickle"):
+    """attribute values big enough for pickle's own fast path (strings / bytes / bytearrays of 64 KiB and more are handed
+    to the file directly, not through the pickler's write hook); returns (err, ok)"""
+    from edgegraph.structure import Vertex, Universe
+    from edgegraph.builder import explicit
+    from edgegraph.output import nrpickler
+    big_s, big_b = "x" * 70000 + "é", bytes(range(256)) * 300
+    a, b = Vertex(attributes={"text": big_s, "i": 0}), Vertex(attributes={"blob": big_b, "i": 1})
+    e = explicit.link_directed(a, b)
+    e.payload = bytearray(big_b)
+    u = Universe(vertices=[a, b])
+    err, ok = "", False
+    try:
+        u2 = (pickle.loads if loader == "pickle" else dill.loads)(nrpickler.dumps(u, protocol=protocol))
+        a2, b2 = u2.vertices
+        ok = (a2.text == big_s and b2.blob == big_b and a2.links[0].payload == bytearray(big_b) and (a2.i, b2.i) == (0, 1)
+              and a2.links[0] is b2.links[0] and a2.links[0].v2 is b2 and a2.universes[0] is u2)
+    except Exception as exc:    # noqa: BLE001
+        err = type(exc).__name__
+    return err, ok
+
+
 def after_failure_case(protocol):
     """a dumps() that raises half-way (an attribute that cannot be pickled: a generator) followed by an ordinary
     dumps() of a small graph; returns (first_failed, err, ok)"""
